@@ -336,6 +336,18 @@ func (i *interpreter) binop(op token.Token, t types.Type, x, y value) value {
 			return i.symBinop(op, t, x, y)
 		}
 	}
+	if _, ok := x.(decStr); ok {
+		if op == token.EQL || op == token.NEQ {
+			return i.symBinop(op, t, x, y)
+		}
+		panic(unsupported{"operation on decimal token"})
+	}
+	if _, ok := y.(decStr); ok {
+		if op == token.EQL || op == token.NEQ {
+			return i.symBinop(op, t, x, y)
+		}
+		panic(unsupported{"operation on decimal token"})
+	}
 	if _, ok := x.(opaqueStr); ok {
 		if op == token.ADD {
 			return x
